@@ -219,7 +219,14 @@ fn hexval(s: &str) -> u128 {
 /// names for named areas, among them the ones the library itself hands out ("Stack", "arg0", "env0") or might
 /// treat specially: a name is a label, never an address - nothing about an area may depend on it
 pub fn area_name(a: u64, b: u64) -> String {
-    ["named", "Stack", "Heap", "arg0", "env0", ".text", "TLS", "", "Stack", "named"][(((a >> 4) ^ (a >> 12) ^ b) % 10) as usize].to_string()
+    // (the long ones put a multi-byte character across byte 32, 64 and 128 of the name)
+    let k = (((a >> 4) ^ (a >> 12) ^ b) % 13) as usize;
+    match k {
+        10 => format!("{}€uro-zone", "x".repeat(31)),
+        11 => format!("{}ключ{}", "n".repeat(63), "ß".repeat(40)),
+        12 => "名".repeat(50),
+        _ => ["named", "Stack", "Heap", "arg0", "env0", ".text", "TLS", "", "Stack", "named"][k].to_string(),
+    }
 }
 
 pub fn fill(seed: u64, len: u64) -> Vec<u8> {
